@@ -126,6 +126,54 @@ fn run_stream(filters: &[Filter], msgs: &[DltMessage], s: &[usize]) -> Result<St
     }))
 }
 
+/// third mode "consumer hangs up": the output function accepts `k` messages and fails from then on (the receiver behind it is gone).
+/// Observed: what was forwarded, the result, and how many input messages the filter left in its input channel.
+struct HangObs {
+    fwd: Vec<(usize, bool)>,
+    ret: Result<(usize, usize), String>,
+    left: usize,
+    refused: bool, // the output function was asked for a (k+1)-th message and refused it
+}
+fn run_stream_hangup(filters: &[Filter], msgs: &[DltMessage], s: &[usize], k: usize) -> Result<HangObs, String> {
+    let input: Vec<DltMessage> = s.iter().enumerate().map(|(p, k)| {
+        let mut m = msgs[*k - 1].clone();
+        m.index = (p + 1) as u32;
+        m
+    }).collect();
+    let orig = input.clone();
+    catch(std::panic::AssertUnwindSafe(move || {
+        let (tx, rx) = channel();
+        let (tx2, rx2) = channel();
+        for m in input {
+            tx.send(m).unwrap();
+        }
+        drop(tx);
+        let taken = std::cell::Cell::new(0usize);
+        let refused = std::cell::Cell::new(false);
+        let ret = filter_as_streams(filters, &rx, &|m| {
+            if taken.get() >= k {
+                refused.set(true);
+                Err(std::sync::mpsc::SendError(m))
+            } else {
+                taken.set(taken.get() + 1);
+                tx2.send(m)
+            }
+        }).map_err(|e| format!("{:?}", e));
+        let left = rx.try_iter().count();
+        drop(tx2);
+        let mut fwd = Vec::new();
+        for m in rx2.iter() {
+            let p = m.index as usize;
+            if p >= 1 && p <= orig.len() {
+                fwd.push((p, orig[p - 1] == m));
+            } else {
+                fwd.push((0, false));
+            }
+        }
+        HangObs { fwd, ret, left, refused: refused.get() }
+    }))
+}
+
 /// second mode "paced producer": filter_as_streams runs on its own thread while the producer pauses before the first
 /// and after each of the first messages, sends the rest at once and then drops the sender. The result of correct code
 /// does not depend on the pacing; a filter that stops when its input is momentarily empty loses messages here.
@@ -343,6 +391,7 @@ struct Out {
     /// at most this many TLC-predicted cases that differ from the prediction (or fail to load) are written; the verdict
     /// only needs some of them - a tree that deviates everywhere must not flood the trace validation
     deviating_cap: u64,
+    big_backlog_cap: usize,
     deviating: u64,
     stats: std::collections::BTreeMap<String, u64>,
 }
@@ -440,6 +489,28 @@ fn run_case(o: &mut Out, fs: &[AFilter], amsgs: &[AMsg], streams: &[Vec<usize>],
             }
         }
     }
+    // the stream filter whose consumer hangs up after k messages (k = 0, 1, 2 by case): no prediction, always decided by TLC
+    if failed.is_none() && (sampled || pred.is_none()) && !streams.is_empty() && !streams[0].is_empty() {
+        if let (Ok(filters), how) = filter_list(fs, dlf_style) {
+            let k = (streams[0].len() + fs.len()) % 3;
+            match run_stream_hangup(&filters, &msgs, &streams[0], k) {
+                Err(p) => evs.push(json!({"ev":"panic","msg":p})),
+                Ok(ob) => {
+                    evs.push(json!({"ev":"stream","s":streams[0],"filters_from":how,"paced_producer":false,"hangup_after":k}));
+                    for (p, i) in &ob.fwd {
+                        evs.push(json!({"ev":"fwd","pos":p,"intact":i}));
+                    }
+                    match (&ob.ret, ob.refused) {
+                        (Ok((a, b)), false) => evs.push(json!({"ev":"send","passed":a,"filtered":b})),
+                        (Ok((a, b)), true) => evs.push(json!({"ev":"hangup_ok","passed":a,"filtered":b,"left":ob.left})),
+                        (Err(_), true) => evs.push(json!({"ev":"hangup_err","left":ob.left})),
+                        (Err(e), false) => evs.push(json!({"ev":"error","msg":e})),
+                    }
+                    o.bump(if ob.refused { "hangup_runs_refused" } else { "hangup_runs_not_reached" }, 1);
+                }
+            }
+        }
+    }
     // the remote stream front-end
     if let Some((si, command, portions)) = extra.ctx {
         let s = &streams[si];
@@ -465,6 +536,35 @@ fn run_case(o: &mut Out, fs: &[AFilter], amsgs: &[AMsg], streams: &[Vec<usize>],
                 o.bump("set_decisions", inside.len() as u64);
             }
             Err(e) => evs.push(json!({"ev":"error","msg":e})),
+        }
+    }
+    // the remote stream front-end with ONE huge backlog (more than 2^17 messages in a single call, as for a stream requested on a large,
+    // already loaded file): quarters that are dominated by one message alternate with quarters that cycle through all messages, so
+    // that neighbouring parts of the backlog hold very different numbers of matches.  Summary per message of the case.
+    static BIG_RUNS: std::sync::atomic::AtomicUsize = std::sync::atomic::AtomicUsize::new(0);
+    if failed.is_none() && (sampled || pred.is_none()) && !msgs.is_empty() && !fs.is_empty()
+        && BIG_RUNS.fetch_add(1, std::sync::atomic::Ordering::SeqCst) < o.big_backlog_cap
+    {
+        let m = msgs.len();
+        let n = 140_000usize;
+        let q = n / 4;
+        let s: Vec<usize> = (0..n).map(|i| match i / q {
+            0 => if i % 997 == 0 { 1 + (i / 997) % m } else { 1 },
+            2 => if i % 499 == 0 { 1 + (i / 499) % m } else { m },
+            _ => 1 + i % m,
+        }).collect();
+        let command = ["stream", "query"][fs.len() % 2];
+        let name = if command == "stream" { "stream_context_stream" } else { "stream_context_query" };
+        match run_ctx_stream(fs, command, &msgs, &s, 1, 1 << 20) {
+            Ok(inside) => {
+                let mut per = vec![(0u64, 0u64); m];
+                for (p, x) in inside.iter().enumerate() {
+                    if *x { per[s[p] - 1].0 += 1 } else { per[s[p] - 1].1 += 1 }
+                }
+                evs.push(json!({"ev":"set_big","impl":name,"n":n,"per":per.iter().enumerate().map(|(k, c)| json!({"mi":k + 1,"kept":c.0,"dropped":c.1})).collect::<Vec<_>>()}));
+                o.bump("big_backlog_runs", 1);
+            }
+            Err(e) => evs.push(json!({"ev":"error","msg":format!("big backlog ({} messages in one call): {}", n, e.chars().take(300).collect::<String>())})),
         }
     }
     // the export plugin
@@ -538,7 +638,7 @@ fn run_case(o: &mut Out, fs: &[AFilter], amsgs: &[AMsg], streams: &[Vec<usize>],
 fn main() {
     quiet_panics();
     let a = Args::from_env();
-    let mut o = Out { t: Trace::create(&a.str("--out", "trace.ndjson")), case: 0, cases_written: 0, deviating_cap: a.num("--deviating-cap", 0), deviating: 0, stats: Default::default() };
+    let mut o = Out { t: Trace::create(&a.str("--out", "trace.ndjson")), case: 0, cases_written: 0, deviating_cap: a.num("--deviating-cap", 0), big_backlog_cap: a.num("--big-backlog", 24) as usize, deviating: 0, stats: Default::default() };
     let mut rng = Rng::new(a.num("--seed", 1));
     let sample = a.num("--sample", 200);
     let tmp = a.str("--tmp", ".");
